@@ -50,6 +50,7 @@ long bpf_for_each_map_elem(void *map, void *callback_fn, void *callback_ctx, __u
 __u64 bpf_ktime_get_ns(void);
 __u64 bpf_ktime_get_boot_ns(void);
 long bpf_trace_printk(const char *fmt, __u32 fmt_size, ...);
+long bpf_trace_vprintk(const char *fmt, __u32 fmt_size, const void *data, __u32 data_len);
 __u32 bpf_get_prandom_u32(void);
 __u32 bpf_get_smp_processor_id(void);
 long bpf_skb_store_bytes(struct __sk_buff *skb, __u32 offset, const void *from, __u32 len, __u64 flags);
